@@ -782,7 +782,7 @@ func ruleTruthfulStatus(p *Prog, r *Report, rule string) {
 
 // rulePolicyOfTheCodeUsed: R13.7.
 func rulePolicyOfTheCodeUsed(p *Prog, r *Report) {
-	r.rule("R13.7", "The policy name recorded in a status slot is the policy whose code was handed to the device session: (a) in package status every value stored into the Policy field of an action derives from a parameter of the writing function (it is not looked up at write time, when `current` may already point to a newer policy); (b) at every call site of such a writer the policy argument and the code file argument of the device.ApproveOrCompare call in the same function derive from one and the same resolution of the `current` link (one call of filepath.EvalSymlinks / os.Readlink).")
+	r.rule("R13.7", "The policy name recorded in a status slot is the policy whose code was handed to the device session: (a) in package status every value stored into the Policy field of an action derives from a parameter of the writing function (it is not looked up at write time, when `current` may already point to a newer policy); (b) at every call site of such a writer the policy argument and the code file argument of the device.ApproveOrCompare call in the same function derive from one and the same resolution of the `current` link: every call in the backward slice of the policy argument that can observe the outside world (anything but path/filepath/strings/fmt string functions) also lies in the backward slice of the code file argument, and there is at least one such call.")
 	// (a)
 	type wparam struct {
 		fn  *ssa.Function
@@ -896,15 +896,27 @@ func rulePolicyOfTheCodeUsed(p *Prog, r *Report) {
 				}
 			}
 			common, foreign := "", ""
+			pure := func(n string) bool {
+				n = strings.TrimPrefix(n, "path/")
+				return strings.HasPrefix(n, "path.") || strings.HasPrefix(n, "filepath.") && n != "filepath.EvalSymlinks" && n != "filepath.Glob" && n != "filepath.Abs" ||
+					strings.HasPrefix(n, "strings.") || strings.HasPrefix(n, "fmt.Sprint")
+			}
 			for v := range polSlice {
 				c, ok := v.(*ssa.Call)
-				if !ok || c.Common().StaticCallee() == nil {
+				if !ok {
 					continue
 				}
-				n := shortName(c.Common().StaticCallee())
-				if n != "filepath.EvalSymlinks" && n != "path/filepath.EvalSymlinks" && n != "os.Readlink" {
+				if _, isB := c.Common().Value.(*ssa.Builtin); isB {
 					continue
 				}
+				n := "dynamic call"
+				if f := c.Common().StaticCallee(); f != nil {
+					n = shortName(f)
+				}
+				if pure(n) {
+					continue
+				}
+				// a call that can observe the outside world (link resolution, environment, config ...)
 				inAll := len(codeSlices) > 0
 				for _, cs := range codeSlices {
 					if !cs[v] {
@@ -912,7 +924,9 @@ func rulePolicyOfTheCodeUsed(p *Prog, r *Report) {
 					}
 				}
 				if inAll {
-					common = n + " at " + p.ipos(c)
+					if common == "" || strings.Contains(n, "EvalSymlinks") || strings.Contains(n, "Readlink") {
+						common = n + " at " + p.ipos(c)
+					}
 				} else {
 					foreign = "the policy can also come from " + n + " at " + p.ipos(c) + ", which the code file does not derive from"
 				}
